@@ -66,6 +66,7 @@ type RunReport struct {
 	Tuples       []Tuple
 	Digest       uint64 // event-log digest of the run (task/site sequence, map perms, outcomes)
 	Explicit     simrt.Schedule
+	TaskSteps    []uint64
 }
 
 func runtimeCat(cat string) bool {
@@ -279,6 +280,7 @@ func RunC07(w *Workload, st *Stats, maxYields uint64) *RunReport {
 	}
 	res := simrt.Run(fns, w.Sched, maxYields)
 	rep.Explicit = explicitOf(res, w.Sched)
+	rep.TaskSteps = res.TaskSteps
 	noteSchedule(st, w, res)
 	dg := hmix(res.Digest, res.MapDigest)
 
@@ -702,12 +704,14 @@ func (c *c15cmp) key(o Outcome) string {
 		return "v:" + Canon(o.Val, c.mode, c.exact)
 	case 'e':
 		if c.errAny {
-			return "e"
+			return "fail"
 		}
 		return "e:" + o.Cat + ":" + o.Msg
 	}
 	if c.errAny {
-		return "p"
+		// several sub-expressions fail at once and one of the failures is a
+		// panic (a C03 matter): which one is reported is the permitted variation
+		return "fail"
 	}
 	return "p:" + o.Msg
 }
